@@ -287,3 +287,16 @@ _ADD4 = {
 for _k, (_t, _x) in _ADD4.items():
     CLAIMS[_k]['technique'] += _t
     CLAIMS[_k]['text'] += _x
+
+# rules of DESIGN.md 12.10
+_ADD5 = {
+ 'C03': ('; hole-fill rule', ' In-place compaction of U during secondary dropping fills the hole from the slot the loop test has just vouched for (no change of the bound variable between test and copy).'),
+ 'C15': ('; hole-fill rule; quick-select scan/move complement', ' Same hole-fill rule; in ?qselect every scan and the conditional move after it test the element with complementary operators, so ties make progress.'),
+ 'C16': ('; bounded string conversions', ' Every %s / %[ conversion of a scanf-family call carries a field width that fits the receiving array.'),
+ 'C17': ('; MC64 heap rules, reset coverage, linear/logarithmic domain analysis',
+         ' The three heap routines: max- and min-heap branches are mirror images, child/parent index tests of a 1-based heap, orientation of the max-heap. The search epilogues un-mark the whole pushed stack (from its store frontier) and the heap. A units-of-measure flow analysis of the scaling job keeps linear magnitudes and logarithmic costs/duals apart, allows the empty-marker test on linear values only, and requires the duals to leave as logarithms.'),
+ 'C19': ('; lent-variable rule', ' A variable lent to a status-returning callee and used as a subscript on the non-zero-status branch is stored on every path to that status (8 recorded findings in ilu_?pivotL).'),
+}
+for _k, (_t, _x) in _ADD5.items():
+    CLAIMS[_k]['technique'] += _t
+    CLAIMS[_k]['text'] += _x
